@@ -26,12 +26,14 @@ ContainerRange(st, c) ==
 ----------------------------------------------------------------------------
 (* C04: text selection by offset inside a container; a = [c, off]           *)
 (*      answer: [ok, b, e, text]  (absolute range and the codepoints)       *)
+\* (tbook, tbo: the same question asked through text_by_offset, which returns the text without a selection)
 TextSelExpected(st, a) ==
-    IF ~ContainerOK(st, a.c) THEN [ok |-> FALSE, b |-> 0, e |-> 0, text |-> <<>>]
+    IF ~ContainerOK(st, a.c) THEN [ok |-> FALSE, b |-> 0, e |-> 0, text |-> <<>>, tbook |-> FALSE, tbo |-> <<>>]
     ELSE LET cr == ContainerRange(st, a.c)
-         IN IF ~OffValid(cr[3] - cr[2], a.off) THEN [ok |-> FALSE, b |-> 0, e |-> 0, text |-> <<>>]
+         IN IF ~OffValid(cr[3] - cr[2], a.off) THEN [ok |-> FALSE, b |-> 0, e |-> 0, text |-> <<>>, tbook |-> FALSE, tbo |-> <<>>]
             ELSE LET be == ResolveIn(cr[2], cr[3], a.off)
-                 IN [ok |-> TRUE, b |-> be[1], e |-> be[2], text |-> SubSeq(st.res[cr[1]].text, be[1] + 1, be[2])]
+                     txt == SubSeq(st.res[cr[1]].text, be[1] + 1, be[2])
+                 IN [ok |-> TRUE, b |-> be[1], e |-> be[2], text |-> txt, tbook |-> TRUE, tbo |-> txt]
 
 (* C04: the text of an annotation: a = [ann: ref]; answer [ok, texts: seq of codepoint seqs, ranges] *)
 AnnTextExpected(st, a) ==
